@@ -442,4 +442,375 @@ theorem memory_guard (mem : Nat) (off size : Nat) :
       · rw [if_neg g2]
         exact ⟨by omega, by omega, Or.inr ⟨by omega, by omega⟩⟩
 
+/-! ## jumps -/
+
+/-- **jump_only_to_jumpdest.** `JUMP`, and `JUMPI` when its condition is non-zero, continue at
+    `dest + 1` only if `dest` is marked in the jumpdest bitmap; otherwise they fail with `bad jumpdest`.
+    An untaken `JUMPI` continues at `pc + 1`. -/
+theorem jump_only_to_jumpdest (e : Entry) (jd : List Bool) (args : List Word) (s : State) :
+    (∀ pc' s', handleJmp e jd args s = .ok (pc', s') →
+        s' = s ∧ ((validJumpDest jd (args.getD 0 0) = true ∧ pc' = args.getD 0 0 + 1) ∨
+                  (e.target = .control_jumpi ∧ args.getD 1 0 = 0 ∧ pc' = s.pc + 1))) ∧
+    (∀ er s', handleJmp e jd args s = .error (er, s') → er = .badJumpdest ∨ er = .arityMismatch) := by
+  have h1 : jumpValidates = true := rfl
+  have h2 : jumpiValidates = true := rfl
+  unfold handleJmp
+  constructor
+  · intro pc' s' h
+    cases ht : e.target <;> simp only [ht, h1, h2, if_true] at h <;> try (cases h; done)
+    · split at h
+      next hv => cases h; exact ⟨rfl, .inl ⟨hv, rfl⟩⟩
+      next => cases h
+    · split at h
+      next hc =>
+        split at h
+        next hv => cases h; exact ⟨rfl, .inl ⟨hv, rfl⟩⟩
+        next => cases h
+      next hc => cases h; exact ⟨rfl, .inr ⟨rfl, Decidable.not_not.mp hc, rfl⟩⟩
+  · intro er s' h
+    cases ht : e.target <;> simp only [ht, h1, h2, if_true] at h <;>
+      first
+        | (cases h; right; rfl)
+        | (split at h <;> first | (cases h; left; rfl) | (cases h) | (split at h <;> first | (cases h; left; rfl) | cases h))
+
+/-- length in bytes of the instruction whose opcode is `b`: PUSHn carries n data bytes -/
+def instrLen (b : Nat) : Nat := if 0x60 ≤ b ∧ b ≤ 0x7f then b - 0x60 + 2 else 1
+
+/-- instruction boundaries of the decoding of `code`: offset 0, and the offset right after an instruction
+    (opcode + push data) that starts at a boundary inside the code -/
+inductive Boundary (code : Code) : Nat → Prop
+  | zero : Boundary code 0
+  | next {i b : Nat} : Boundary code i → byteAt code i = some b → Boundary code (i + instrLen b)
+
+theorem instrLen_pos (b : Nat) : 1 ≤ instrLen b := by unfold instrLen; split <;> omega
+
+/-- no boundary lies strictly inside an instruction (push data is never a boundary) -/
+theorem boundary_gap (code : Code) : ∀ n j, j ≤ n → ∀ i b, Boundary code i → Boundary code j → i < j →
+    byteAt code i = some b → i + instrLen b ≤ j := by
+  intro n
+  induction n with
+  | zero => intro j hj i b _ _ hij _; omega
+  | succ n ih =>
+    intro j hj i b hi hbj hij hb
+    cases hbj with
+    | zero => omega
+    | @next k bk hk hbk =>
+      have hlen := instrLen_pos bk
+      by_cases h1 : i < k
+      · have := ih k (by omega) i b hi hk h1 hb; omega
+      · by_cases h2 : i = k
+        · subst h2; rw [hb] at hbk; cases hbk; omega
+        · -- k < i < k + len: contradicts the gap property for the pair (k, i)
+          have := ih i (by omega) k bk hk hi (by omega) hbk
+          omega
+
+theorem byteAt_lt {code : Code} {i b : Nat} (h : byteAt code i = some b) : i < code.length := by
+  unfold byteAt at h
+  cases hc : code[i]? with
+  | none => rw [hc] at h; cases h
+  | some x => exact (List.getElem?_eq_some_iff.mp hc).1
+
+def marked (jd : List Bool) (j : Nat) : Bool := jd[j]?.getD false
+
+theorem marked_replicate (n j : Nat) : marked (List.replicate n false) j = false := by
+  unfold marked; rw [List.getElem?_replicate]; split <;> rfl
+
+theorem marked_set_self {jd : List Bool} {i : Nat} (h : i < jd.length) : marked (jd.set i true) i = true := by
+  simp [marked, h]
+
+theorem marked_set_ne {jd : List Bool} {i j : Nat} (h : i ≠ j) : marked (jd.set i true) j = marked jd j := by
+  simp [marked, List.getElem?_set_ne h]
+
+/-- invariant of the analysis loop -/
+theorem analyzeLoop_spec (code : Code) : ∀ fuel i jd, Boundary code i → jd.length = code.length →
+    code.length ≤ fuel + i →
+    (∀ j, marked jd j = true → j < i ∧ byteAt code j = some 0x5b ∧ Boundary code j) →
+    (∀ j, j < i → byteAt code j = some 0x5b → Boundary code j → marked jd j = true) →
+    ∀ j, marked (analyzeLoop code fuel i jd) j = true ↔ (byteAt code j = some 0x5b ∧ Boundary code j) := by
+  have c1 : anaJumpdestByte = 0x5b := rfl
+  have c2 : anaJumpdestStep = 1 := rfl
+  have c3 : anaPushLo = 0x60 := rfl
+  have c4 : anaPushHi = 0x7f := rfl
+  have c5 : anaPushBase = 0x60 := rfl
+  have c6 : anaPushAdd = 2 := rfl
+  have c7 : anaOtherStep = 1 := rfl
+  have done : ∀ i jd, code.length ≤ i →
+      (∀ j, marked jd j = true → j < i ∧ byteAt code j = some 0x5b ∧ Boundary code j) →
+      (∀ j, j < i → byteAt code j = some 0x5b → Boundary code j → marked jd j = true) →
+      ∀ j, marked jd j = true ↔ (byteAt code j = some 0x5b ∧ Boundary code j) := by
+    intro i jd hi hs hc j
+    exact ⟨fun h => (hs j h).2, fun h => hc j (by have := byteAt_lt h.1; omega) h.1 h.2⟩
+  intro fuel
+  induction fuel with
+  | zero =>
+    intro i jd _ _ hf hs hc
+    simp only [analyzeLoop]
+    exact done i jd (by omega) hs hc
+  | succ fuel ih =>
+    intro i jd hbi hlen hf hs hc
+    simp only [analyzeLoop]
+    cases hb : byteAt code i with
+    | none =>
+      simp only
+      have : code.length ≤ i := by
+        unfold byteAt at hb
+        cases hc' : code[i]? with
+        | none => exact List.getElem?_eq_none_iff.mp hc'
+        | some x => rw [hc'] at hb; cases hb
+      exact done i jd this hs hc
+    | some b =>
+      simp only [c1, c2, c3, c4, c5, c6, c7]
+      have hil := byteAt_lt hb
+      by_cases hjd : b = 0x5b
+      · subst hjd
+        simp only [if_true]
+        have hnext : Boundary code (i + 1) := by
+          have := Boundary.next hbi hb; simpa [instrLen] using this
+        apply ih (i + 1) (jd.set i true) hnext (by simp [hlen]) (by omega)
+        · intro j hm
+          by_cases hji : i = j
+          · subst hji; exact ⟨by omega, hb, hbi⟩
+          · rw [marked_set_ne hji] at hm
+            have := hs j hm; exact ⟨by omega, this.2⟩
+        · intro j hj hbj hBj
+          by_cases hji : i = j
+          · subst hji; exact marked_set_self (by omega)
+          · rw [marked_set_ne hji]; exact hc j (by omega) hbj hBj
+      · simp only [hjd, if_false]
+        by_cases hp : 0x60 ≤ b ∧ b ≤ 0x7f
+        · simp only [hp, and_self, if_true]
+          have hnext : Boundary code (i + (b - 0x60) + 2) := by
+            have := Boundary.next hbi hb
+            simpa [instrLen, hp, Nat.add_assoc] using this
+          apply ih _ jd hnext hlen (by omega)
+          · intro j hm; have := hs j hm; exact ⟨by omega, this.2⟩
+          · intro j hj hbj hBj
+            by_cases hlt : j < i
+            · exact hc j hlt hbj hBj
+            · by_cases hji : j = i
+              · subst hji; rw [hb] at hbj; cases hbj; omega
+              · have := boundary_gap code j j (Nat.le_refl j) i b hbi hBj (by omega) hb
+                simp [instrLen, hp] at this; omega
+        · simp only [hp, if_false]
+          have hnext : Boundary code (i + 1) := by
+            have := Boundary.next hbi hb; simpa [instrLen, hp] using this
+          apply ih _ jd hnext hlen (by omega)
+          · intro j hm; have := hs j hm; exact ⟨by omega, this.2⟩
+          · intro j hj hbj hBj
+            by_cases hlt : j < i
+            · exact hc j hlt hbj hBj
+            · have hji : j = i := by omega
+              subst hji; rw [hb] at hbj; cases hbj; omega
+
+/-- **jumpdest_analysis.** The bitmap computed by the analysis loop of `Bytecode::new` marks offset `j`
+    iff `code[j] = 0x5b` (JUMPDEST) and `j` is an instruction boundary of the decoding — so never a byte
+    inside push data, including the data of a truncated trailing push. -/
+theorem jumpdest_analysis (code : Code) (j : Nat) :
+    validJumpDest (analyze code) j = true ↔ (byteAt code j = some 0x5b ∧ Boundary code j) := by
+  have h := analyzeLoop_spec code code.length 0 (List.replicate code.length false) .zero (by simp)
+    (by omega) (by intro j hm; rw [marked_replicate] at hm; cases hm) (by intro j hj; omega) j
+  simpa [validJumpDest, marked, analyze] using h
+
+/-- A taken jump of the machine running `code` with its own analysis lands right after a genuine
+    JUMPDEST at an instruction boundary. -/
+theorem jump_lands_after_jumpdest (code : Code) (e : Entry) (args : List Word) (s s' : State) (pc' : Nat)
+    (h : handleJmp e (analyze code) args s = .ok (pc', s'))
+    (htaken : e.target = .control_jump ∨ args.getD 1 0 ≠ 0) :
+    ∃ d, pc' = d + 1 ∧ byteAt code d = some 0x5b ∧ Boundary code d := by
+  have := (jump_only_to_jumpdest e (analyze code) args s).1 pc' s' h
+  rcases this.2 with ⟨hv, hpc⟩ | ⟨ht, hz, _⟩
+  · exact ⟨_, hpc, (jumpdest_analysis code _).mp hv⟩
+  · rcases htaken with h' | h'
+    · rw [h'] at ht; cases ht
+    · exact absurd hz h'
+
+/-! ## read-only mode -/
+
+theorem guards_present : roGuardSstore = true ∧ roGuardTstore = true ∧ roGuardLog = true ∧
+    roGuardCreate = true ∧ roGuardCreate2 = true ∧ roGuardSelfdestruct = true ∧
+    roGuardCallValue = true ∧ flushRefusesReadonly = true ∧ staticCallPassesReadOnly = true ∧
+    systemReadonlyFromRuntime = true := by decide
+
+/-- **readonly_no_effects** (handlers).  With `readonly = true`, SSTORE, TSTORE, LOG0–4, CREATE, CREATE2,
+    SELFDESTRUCT and CALL with a non-zero value fail with `read only` at their first statement: the state at
+    the failure is the state before (storage / transient / log / nonce / tombstone / sends untouched, memory
+    not even grown), whatever the operands and the environment. -/
+theorem readonly_no_effects (e : Entry) (a : Answer) (args : List Word) (s : State)
+    (hro : s.readonly = true) :
+    ((e.target = .storage_sstore ∨ e.target = .storage_tstore ∨ e.target = .log_event_log ∨
+      e.target = .lifecycle_create ∨ e.target = .lifecycle_create2) →
+        handleValue e a args s = .error (.readOnly, s)) ∧
+    (e.target = .lifecycle_selfdestruct → handleExit e a args s = .error (.readOnly, s)) ∧
+    (e.target = .call_call_call → args.getD 2 0 > 0 → handleValue e a args s = .error (.readOnly, s)) := by
+  obtain ⟨g1, g2, g3, g4, g5, g6, g7, -⟩ := guards_present
+  refine ⟨?_, ?_, ?_⟩
+  · rintro (h | h | h | h | h) <;> simp [handleValue, h, hro, g1, g2, g3, g4, g5]
+  · intro h; simp [handleExit, h, hro, g6]
+  · intro h hv
+    have hv' : 0 < args[2]?.getD 0 := by simpa using hv
+    simp [handleValue, h, callGeneric, hro, g7, hv']
+
+/-- the opcodes whose handlers are the guarded ones -/
+def effectBytes : List Nat := [0x55, 0x5d, 0xa0, 0xa1, 0xa2, 0xa3, 0xa4, 0xf0, 0xf5]
+
+/-- In the regenerated table, SSTORE, TSTORE, LOG0–4, CREATE, CREATE2 dispatch to the guarded handlers under
+    a value-kind macro, SELFDESTRUCT to `selfdestruct` under `def_exit!`, CALL to `call_call`. -/
+theorem effect_bytes_dispatch :
+    (effectBytes.all fun b => match table[b]? with
+      | some e => (e.kind == .stdproc || e.kind == .stdfun || e.kind == .stdlog) &&
+                  (e.target == .storage_sstore || e.target == .storage_tstore || e.target == .log_event_log ||
+                   e.target == .lifecycle_create || e.target == .lifecycle_create2)
+      | none => false) = true ∧
+    (match table[0xff]? with | some e => e.kind == .exit && e.target == .lifecycle_selfdestruct | none => false) = true ∧
+    (match table[0xf1]? with | some e => e.kind == .stdfun && e.target == .call_call_call | none => false) = true := by
+  decide +kernel
+
+/-- **readonly_no_effects** (step).  One step of an entry that dispatches to a guarded handler, in a
+    read-only activation, never continues or halts: it fails (`stack underflow` when operands are missing,
+    otherwise `read only`) and the effects performed and the dirty flag are those of the state before. -/
+theorem readonly_step_fails (e : Entry) (code : Code) (jd : List Bool) (a : Answer) (s : State)
+    (hro : s.readonly = true)
+    (hk : e.kind = .stdproc ∨ e.kind = .stdfun ∨ e.kind = .stdlog)
+    (ht : e.target = .storage_sstore ∨ e.target = .storage_tstore ∨ e.target = .log_event_log ∨
+          e.target = .lifecycle_create ∨ e.target = .lifecycle_create2) :
+    ∃ er s', stepEntry e code jd a s = .fail er s' ∧ s'.effects = s.effects ∧ s'.dirty = s.dirty ∧
+      s'.memSize = s.memSize := by
+  have hh := fun rest => (readonly_no_effects e a (s.stack.take e.pops) { s with stack := rest } hro).1 ht
+  unfold stepEntry
+  rcases hk with hk | hk | hk <;> simp only [hk]
+  all_goals
+    cases hp : pre e s.stack with
+    | error er => exact ⟨er, s, rfl, rfl, rfl, rfl⟩
+    | ok pr =>
+      obtain ⟨args, rest⟩ := pr
+      simp only
+      split
+      · exact ⟨_, s, rfl, rfl, rfl, rfl⟩
+      · have := (readonly_no_effects e a args { s with stack := rest } hro).1 ht
+        rw [this]
+        exact ⟨_, _, rfl, rfl, rfl, rfl⟩
+
+/-- **flush_refuses_readonly.** `flush` on a dirty read-only activation fails with `forbidden` before
+    anything is written; a flush that succeeds in read-only mode wrote nothing; `forbidden` is its only
+    error. -/
+theorem flush_refuses_readonly (s : State) :
+    (s.readonly = true → s.dirty = true → flush s = .error .forbidden) ∧
+    (∀ s', s.readonly = true → flush s = .ok s' → s' = s) ∧
+    (∀ e, flush s = .error e → e = .forbidden ∧ s.readonly = true ∧ s.dirty = true) := by
+  have g : flushRefusesReadonly = true := rfl
+  unfold flush
+  refine ⟨?_, ?_, ?_⟩
+  · intro h1 h2; simp [h1, h2, g]
+  · intro s' h1 h
+    cases hd : s.dirty <;> simp [hd, h1, g] at h
+    exact h.symm
+  · intro e h
+    cases hd : s.dirty <;> cases hr : s.readonly <;> simp [hd, hr, g] at h
+    exact ⟨h.symm, rfl, rfl⟩
+
+theorem flush_effects {s s2 : State} (h : flush s = .ok s2) :
+    s2.effects = s.effects ∨ s2.effects = s.effects ++ [.stateRootWritten] := by
+  unfold flush at h
+  repeat' split at h
+  all_goals first | (cases h; done) | (cases h; simp)
+
+/-- the flag handed to a nested activation: `parent.readonly ∨ kind = StaticCall` (CALL and the
+    DELEGATECALL self-call pass no flag of their own; the runtime keeps a read-only caller's calls read-only) -/
+theorem child_readonly_eq (p : Bool) (k : CallKind) :
+    childReadonly p k = (p || decide (k = .staticCall)) := by
+  have g1 : staticCallPassesReadOnly = true := rfl
+  have g2 : systemReadonlyFromRuntime = true := rfl
+  cases p <;> cases k <;> simp [childReadonly, systemReadonly, vmChildReadOnly, sendFlagReadOnly, g1, g2]
+
+theorem readonly_stays (ks : List CallKind) : readonlyAlong true ks = true := by
+  induction ks with
+  | nil => rfl
+  | cons k ks ih => simp [readonlyAlong, child_readonly_eq, ih]
+
+/-- **readonly_sticky.** By induction on the call depth: whatever the top-level flag and whatever the kinds of
+    the calls above and below, every activation beneath a STATICCALL (at any depth, through CALL,
+    DELEGATECALL or STATICCALL) has `readonly = true`. -/
+theorem readonly_sticky (top : Bool) (above below : List CallKind) :
+    readonlyAlong top (above ++ .staticCall :: below) = true := by
+  induction above generalizing top with
+  | nil => simp [readonlyAlong, child_readonly_eq, readonly_stays]
+  | cons k ks ih => simp only [List.cons_append, readonlyAlong]; exact ih _
+
+/-- The nested activation a CALL-family instruction spawns is recorded with the READ_ONLY flag
+    `kind = StaticCall`, after a successful flush; in a read-only parent a value-carrying CALL spawns nothing. -/
+theorem call_send_flag (kind : CallKind) (a : Answer) (s : State) (dst value i1 i2 o1 o2 : Word)
+    (v : Word) (s' : State) (h : callGeneric kind a s dst value i1 i2 o1 o2 = .ok (v, s')) :
+    (s.readonly = true → value = 0) ∧
+    (∀ k d w f, Effect.send k d w f ∈ s'.effects → Effect.send k d w f ∉ s.effects →
+        k = kind ∧ w = value ∧ f = decide (kind = .staticCall)) := by
+  have g7 : roGuardCallValue = true := rfl
+  have g1 : staticCallPassesReadOnly = true := rfl
+  have hflag : sendFlagReadOnly kind = decide (kind = .staticCall) := by
+    cases kind <;> simp [sendFlagReadOnly, g1]
+  unfold callGeneric at h
+  by_cases hg : (roGuardCallValue && s.readonly && decide (value > 0)) = true
+  · simp [hg] at h
+  · simp only [hg] at h
+    constructor
+    · intro hro
+      simp [g7, hro] at hg; omega
+    · intro k d w f hin hnot
+      simp only [withRegion] at h
+      -- every path: s'.effects is s.effects, optionally followed by [stateRootWritten] and the send
+      have key : s'.effects = s.effects ∨
+          s'.effects = s.effects ++ [.send kind dst value (sendFlagReadOnly kind)] ∨
+          s'.effects = (s.effects ++ [.stateRootWritten]) ++ [.send kind dst value (sendFlagReadOnly kind)] := by
+        simp only [envOr] at h
+        repeat' split at h
+        all_goals first
+          | (cases h; done)
+          | (cases h; simp; done)
+          | (cases h
+             have hf := flush_effects ‹flush _ = Except.ok _›
+             rcases hf with hf | hf <;> simp [hf])
+      rcases key with hk | hk | hk <;> rw [hk] at hin
+      · exact absurd hin hnot
+      · simp only [List.mem_append, List.mem_singleton] at hin
+        rcases hin with hin | hin
+        · exact absurd hin hnot
+        · cases hin; exact ⟨rfl, rfl, hflag⟩
+      · simp only [List.mem_append, List.mem_singleton] at hin
+        rcases hin with (hin | hin) | hin
+        · exact absurd hin hnot
+        · cases hin
+        · cases hin; exact ⟨rfl, rfl, hflag⟩
+
+/-! ## non-vacuity -/
+
+/-- SSTORE (0x55) on a two-element stack: performed when writable, refused when read-only. -/
+example : (match step [0x55] (analyze [0x55]) {} { stack := [1, 7] } with
+    | .next s' => s'.effects == [.sstore 1 7] && s'.stack.length == 0 | _ => false) = true := by decide +kernel
+example : (match step [0x55] (analyze [0x55]) {} { stack := [1, 7], readonly := true } with
+    | .fail .readOnly s' => s'.effects == [] | _ => false) = true := by decide +kernel
+/-- PUSH0 at height 1023 succeeds, at 1024 overflows; ADD at 1024 leaves 1023. -/
+example : (match step [0x5f] [false] {} { stack := List.replicate 1023 0 } with
+    | .next s' => s'.stack.length == 1024 | _ => false) = true := by decide +kernel
+example : (match step [0x5f] [false] {} { stack := List.replicate 1024 0 } with
+    | .fail .stackOverflow _ => true | _ => false) = true := by decide +kernel
+example : (match step [0x01] [false] {} { stack := List.replicate 1024 0 } with
+    | .next s' => s'.stack.length == 1023 | _ => false) = true := by decide +kernel
+/-- the analysis skips push data, including a truncated trailing push -/
+example : analyze [0x5b, 0x60, 0x5b, 0x5b, 0x7f, 0x5b] = [true, false, false, true, false, false] := by
+  decide +kernel
+/-- a jump into push data fails, a jump to the JUMPDEST behind it succeeds -/
+example : (match run [0x60, 0x04, 0x56, 0x60, 0x5b, 0x5b, 0x00] (analyze [0x60, 0x04, 0x56, 0x60, 0x5b, 0x5b, 0x00])
+    (fun _ => {}) 10 {} with | .err .badJumpdest _ => true | _ => false) = true := by decide +kernel
+example : (match run [0x60, 0x05, 0x56, 0x60, 0x5b, 0x5b, 0x00] (analyze [0x60, 0x05, 0x56, 0x60, 0x5b, 0x5b, 0x00])
+    (fun _ => {}) 10 {} with | .done .stop _ => true | _ => false) = true := by decide +kernel
+/-- memory guard at the edge: the last byte below 2^32 is accepted, one more is rejected -/
+example : (match getMemoryRegion 0 4294967294 1 with
+    | .ok (some r, m) => r == (4294967294, 1) && m == 4294967296 | _ => false) = true := by decide +kernel
+example : (match getMemoryRegion 0 4294967295 1 with
+    | .error .illegalMemoryAccess => true | _ => false) = true := by decide +kernel
+example : (match getMemoryRegion 64 (2 ^ 200) 0 with
+    | .ok (none, m) => m == 64 | _ => false) = true := by decide +kernel
+/-- STATICCALL at depth 2 of a chain call → static → delegate → call: the last three activations are read-only -/
+example : readonlyAlong false [.call] = false ∧ readonlyAlong false [.call, .staticCall, .delegateCall, .call] = true := by
+  decide
+
 end BA.Props.C18
